@@ -8,12 +8,12 @@ ALL = ["C%02d" % i for i in range(1, 21)]
 CHECKS = {
  "C14": ("model_checking",
          "stateless schedule exploration (deviation-bounded DFS under a controlled scheduler) of the real processOutbox/sendTransaction and connection loop",
-         "All schedules of 2-3 sender threads / 2 clients x 2 requests that depart from the default schedule at most 2 (quick) or 3 (thorough) times are executed on the real code; every client's byte stream is re-framed by an independent decoder and replies are matched against a request-id ledger.",
+         "All schedules of 2-3 sender threads / 2 clients x 2 requests / a login with a pipelined first request during a 40,000-byte broadcast that depart from the default schedule at most 1-2 (quick) or 2-3 (thorough) times are executed on the real code; every client's byte stream is re-framed by an independent decoder and replies are matched against a request-id ledger.",
          "Scheduling points at sync/channel/spawn/connection operations (sequential consistency between them); Write calls atomic as on TCP; bounded senders and sizes from the stated set.",
          "DESIGN.md §5 C14"),
  "C05": ("exploration",
          "bounded-exhaustive enumeration of (request kind x requester bitmap) configurations on the real connection loop, compared with empty-bitmap and all-bitmap reference runs",
-         "Every one of ~65 request kinds (one per transaction type and target kind that selects a different privilege, incl. entries whose stored metadata claims the other kind) is run with the empty, full, every single-bit and every all-but-one bitmap (plus all four combinations for two-privilege effects) in a fresh world with an observer: without the governing privilege there must be an error reply, an unchanged snapshot and nothing delivered to others; with it the reply, snapshot and deliveries must equal the fully-privileged run.",
+         "Every one of ~90 request kinds (one per transaction type and target kind that selects a different privilege, incl. entries whose stored metadata claims the other kind, aliases to files and folders, other spellings of drop-box / upload-folder paths, requests combining two effects) is run with the empty, full, every single-bit and every all-but-one bitmap (plus all four combinations for two-privilege effects) in a fresh world with an observer: without the governing privilege there must be an error reply, an unchanged snapshot and nothing delivered to others; with it the reply, snapshot and deliveries must equal the fully-privileged run.",
          "Privilege table written from the protocol's description of each effect; bitmaps that differ from empty/all in more than two bits are not enumerated; default schedule only (the quantifier has no schedules).",
          "DESIGN.md §5 C05"),
  "C06": ("exploration",
@@ -38,8 +38,8 @@ CHECKS = {
          "DESIGN.md §5 C13"),
  "C15": ("model_checking",
          "explicit-state breadth-first search over account-management histories against a reference account model, four views compared after every transition; schedule exploration of two concurrent modifications of one account",
-         "Every history up to depth 3 (thorough 4) over 46 operations (new/set/delete/batched create, modify, rename, delete; three logins, three passwords) is replayed through an administrator's connection; afterwards login attempts for every login x password, the list-users reply, the independently parsed accounts directory and a freshly loaded account manager must equal the model; E-SCHED checks that memory and disk agree after two concurrent edits.",
-         "Renames only onto unused logins; small login/password alphabets.",
+         "Every history up to depth 3 (thorough 4) over ~50 operations (new/set/delete/batched create, modify, rename, delete; three logins plus one whose file cannot be created, passwords incl. one starting with wire byte 0x00 and 72/73-byte ones around bcrypt's input limit) is replayed through an administrator's connection; afterwards login attempts for every login x password, the list-users reply, the independently parsed accounts directory and a freshly loaded account manager must equal the model; E-SCHED checks that memory and disk agree after two concurrent edits.",
+         "Renames only onto unused logins; small login/password alphabets; whether a stored hash belongs to a password is asked of the server's own login check.",
          "DESIGN.md §5 C15"),
  "C12": ("model_checking",
          "explicit-state breadth-first search over chat histories replayed on the real server, deliveries compared with a reference chat model after every operation",
@@ -52,8 +52,8 @@ CHECKS = {
          "Instants within 3 s of expiry are not probed; 4 addresses.",
          "DESIGN.md §5 C17"),
  "C18": ("model_checking",
-         "explicit-state breadth-first search over threaded-news histories against a reference news model with a strict reference decoder; schedule exploration of two concurrent posts followed by a reload",
-         "Every history up to depth 4 (thorough 5) over 22 operations (create bundle/category, post with 1- and 255-byte titles/posters and bodies up to 65,000 bytes, reply, delete article, delete item, reload): get-article for every present id, the article list decoded strictly (ids once, in order, sizes and flavors), category listings of every path and a second store loaded from the YAML file must equal the model; new ids unused, parent recorded, linked after the previous newest.",
+         "explicit-state breadth-first search over threaded-news histories against a reference news model with a strict reference decoder; schedule exploration of two concurrent posts followed by a reload and of three concurrent category listings",
+         "Every history up to depth 4 (thorough 5) over 28 operations (create bundle/category incl. under a taken name, post with 1- and 255-byte titles/posters and bodies up to 65,000 bytes, reply, delete article, delete present and missing items, reload, reload after the operator restored an older file): get-article for every present id, the article list decoded strictly (ids once, in order, sizes and flavors), category listings of every path and a second store loaded from the YAML file must equal the model; new ids unused, parent recorded, linked after the previous newest.",
          "Fresh names for new groupings; links of remaining articles after a deletion are unspecified and not compared.",
          "DESIGN.md §5 C18"),
  "C08": ("exploration",
@@ -63,7 +63,7 @@ CHECKS = {
          "DESIGN.md §5 C08"),
  "C09": ("fault_enumeration",
          "exhaustive enumeration of connection-cut points (reset and clean end-of-stream) over upload/resume histories on the real transfer path, directory compared with the reference after every cut",
-         "~67,000 histories: for five data sizes with/without resource fork and fork preservation the upload stream is cut at every byte offset (every structural boundary for 33,000 bytes), resumed from the server-reported offset, cut again (all pairs for the 8-byte file), completed and downloaded: final name absent until complete, .incomplete = delivered prefix, reported offset = its size, published file = sent bytes, existing file never overwritten.",
+         "~67,000 histories: for five data sizes with/without resource fork and fork preservation the upload stream is cut at every byte offset (every structural boundary for 33,000 bytes), resumed from the server-reported offset, cut again (all pairs for the 8-byte file), completed and downloaded: final name absent until complete (and not downloadable as a complete file after a cut), .incomplete = delivered prefix, reported offset = its size, published file = sent bytes, existing file never overwritten (also when two uploads of one free name were granted before either published).",
          "A cut delivers an in-order prefix; at most 2 (thorough 3) cuts; re-upload without resume over a partial is unspecified and not enumerated.",
          "DESIGN.md §5 C09"),
  "C02": ("model_checking",
@@ -83,13 +83,13 @@ CHECKS = {
          "DESIGN.md §5 C07"),
  "C11": ("model_checking",
          "explicit-state breadth-first search over file-management histories against a reference namespace model, with every view (listing, get-info, download reply, disk) cross-checked in every state",
-         "Every history up to depth 2 (thorough 3) over ~70 operations (rename, move, delete, create folder, alias, set comment; files with and without stored forks, a stored type that contradicts the extension, a Mac-Roman name, folders, ignored entries, a partial upload): the real tree must equal the model's (fork side-files and partial data travel or vanish with their file, mkdir never replaces), each folder's listing must equal the model's visible entries, and every listed complete entry must be addressable by its listed bytes for get-info and download with size/type agreeing across list, info, download reply and disk.",
+         "Every history up to depth 2 (thorough 3) over ~85 operations (rename, move, delete, create folder, alias, set comment; files with and without stored forks, a stored type that contradicts the extension, Mac-Roman file and folder names with operations below the folder, ignored entries, a partial upload deleted by its final name): the real tree must equal the model's (fork side-files and partial data travel or vanish with their file, mkdir never replaces), each folder's listing must equal the model's visible entries, and every listed complete entry must be addressable by its listed bytes for get-info and download with size/type agreeing across list, info, download reply and disk.",
          "Renames/moves only onto unused names; folder comment side-file after a folder rename and dangling aliases are unspecified.",
          "DESIGN.md §5 C11"),
  "C20": ("fault_enumeration",
-         "exhaustive enumeration of process-kill points at every file-system step of every update in every short update history on the real stores, with the rest of the history run on the restarted stores; step decomposition validated against strace of the uninstrumented code",
-         "Every history of up to 2 (thorough 3) updates from a 15-update alphabet over board, threaded news, accounts and bans; for every update and every boundary between two file-mutating system calls the goroutine is ended there, the four stores are re-constructed by the real constructors and must load and hold the complete old or complete new value with everything acknowledged intact; the remaining updates then run on the restarted stores (leftover temp files are exercised) and a final restart is compared with the acknowledged state.",
-         "Kill at system-call boundaries only (no torn writes, no power loss); rename atomicity trusted; the shim's step log equals the traced system calls for all 15 update kinds (checked on every run).",
+         "exhaustive enumeration of process-kill points at every file-system step of every update in every short update history on the real stores, with the rest of the history run on the restarted stores; bound to reality by real SIGKILLs (strace fault injection on entry to every file system call) of the uninstrumented code, whose leftover directories must equal the simulated ones",
+         "Every history of up to 2 (thorough 3) updates from a 15-update alphabet over board, threaded news, accounts and bans; for every update and every boundary between two file-mutating system calls the goroutine is ended there, the four stores are re-constructed by the real constructors and must load and hold the complete old or complete new value with everything acknowledged intact; the remaining updates then run on the restarted stores (leftover temp files are exercised) and a final restart is compared with the acknowledged state. Real kills: every file system call of every update kind from the initial directory (thorough: after every one-update prefix) in an uninstrumented helper process; same oracle, and the directory must equal the simulated crash's.",
+         "Kill at system-call boundaries only (no torn writes, no power loss); rename atomicity trusted; the shim's step log equals the traced system calls for all 15 update kinds and every real-kill directory equals its simulated counterpart (checked on every run; needs strace, otherwise noted as skipped in the evidence).",
          "DESIGN.md §5 C20"),
  "C19": ("model_checking",
          "stateless schedule exploration (deviation-bounded DFS with hold-back) of concurrent board readers, posters and logins on the real handlers, with a linearizability-style oracle over the sequence of board values",
@@ -102,9 +102,9 @@ CHECKS = {
          "Objects = what the library's constructors/decoders can produce; reference codec written from the protocol document; very long encodings use boundary buffer sizes only.",
          "DESIGN.md §5 C01"),
  "C03": ("model_checking",
-         "bounded-exhaustive mutation enumeration of one canonical request per transaction type (and of transfer streams) on the real connection/transfer loops with a sentinel client, plus stateless schedule exploration (deviation-bounded DFS with hold-back) of five concurrency scenarios",
-         "~26,000 single mutations (thorough more) — truncation at every byte, every length word set to boundary values, every field dropped/duplicated/replaced, unknown type — sent before login, after a guest login and after an administrator login, and mutated upload / folder-upload / folder-download streams and reference numbers on the transfer port; scenarios: account changes vs. a half-open connection, two connections through the real accept loop, one reference number on two transfer connections, a client that stops reading during a 40 KB broadcast, a disconnect during a broadcast. Per execution: no un-recovered panic, nothing wedged, the sentinel (user list and a transfer request) answered while the hostile peer is silent, user list and connection/transfer counters back at the baseline afterwards.",
-         "Declared allocation sizes are capped at 1 MiB as in the quantifier; a watchdog (30 s / 3 GiB per case) reports runaway cases as a cap; the unsynchronised rate-limiter map of Serve is only reachable by the race oracle (not built, see DESIGN.md).",
+         "bounded-exhaustive mutation enumeration of one canonical request per transaction type (and of transfer streams) on the real connection/transfer loops with a sentinel client, plus stateless schedule exploration (deviation-bounded DFS with hold-back) of six concurrency scenarios",
+         "~26,000 single mutations (thorough more) — truncation at every byte, every length word set to boundary values, every field dropped/duplicated/replaced, unknown type — sent before login, after a guest login and after an administrator login, and mutated upload / folder-upload / folder-download streams and reference numbers on the transfer port; scenarios: account changes vs. a half-open connection, two connections through the real accept loop, one reference number on two transfer connections, a client that stops reading during a 40 KB broadcast, a client that stops reading and sends 300 requests, a disconnect during a broadcast. Per execution: no un-recovered panic, nothing wedged, the sentinel (user list and a transfer request) answered while the hostile peer is silent, user list and connection/transfer counters back at the baseline afterwards.",
+         "Declared allocation sizes are capped at 1 MiB as in the quantifier; a watchdog (30 s / 3 GiB per case) reports runaway cases as a cap; the thorough tier adds the race-oracle pass (concurrent map access = violation).",
          "DESIGN.md §5 C03"),
 }
 NOT_YET = "check not built yet in this session (see DESIGN.md §11 build order)"
